@@ -65,7 +65,7 @@ ATTR_VALUES = ["", "x", "1", "-1", "1e9", "abc def", "http://example.org/a?b=1&a
 TEXTS = ["", " ", "x", "plain text", "12", "-3", "4.5", "1e400", "45.256 -71.92", "45.256 -71.92 46 -72 45.256 -71.92", "45.256", "a b c d", "45.256,-71.92", "NaN NaN",
          "Thu, 01 Jan 2004 19:48:21 GMT", "2004-01-01T19:48:21Z", "2006/13/15", "Fri, 2006/13/15 08:19:53 EDT", "31 Feb 2004", "00000000000000000001-01-01", "2004-366", "24:00:00",
          "yes", "no", "clean", "explicit", "1:02:03", "99999999999999999999:00", "a,b,,c", "mailto:a@b.example", "Jane (jane@example.org)", "jane@example.org (Jane)", "(", ")", "<b>bold</b>",
-         "&lt;b&gt;bold&lt;/b&gt;", "&amp;", "&#38;", "&#x26;", "&#0;", "&#xD800;", "&#xDFFF;", "&#1114111;", "&#1114112;", "&#99999999999;", "&#x110000;", "&#-1;", "&#x;", "&#;", "&nosuch;", "&nbsp;",
+         "&lt;b&gt;bold&lt;/b&gt;", "&amp;", "&#38;", "&#x26;", "&#0;", "&#xD800;", "&#xDFFF;", "&#1114111;", "&#1114112;", "&#99999999999;", "&#" + "9" * 5000 + ";", "&#x" + "f" * 5000 + ";", "&amp;#" + "1" * 4400 + ";", "&#x110000;", "&#-1;", "&#x;", "&#;", "&nosuch;", "&nbsp;",
          "&copy;", "&AMP;", "&#128512;", "<![CDATA[cd <x> &amp; ]]>", "<![CDATA[", "]]>", "<!-- c -->", "<?pi x?>", "aGVsbG8=", "!!!notbase64", "http://example.org/x", "../y", "//host/z",
          "javascript:alert(1)", "\x00", "\x0b", "￾", "퟿", "é", "日本語", "😀", "\r\n", "line1\nline2", "x" * 300]
 ROOTS = ['<rss version="2.0"%s><channel>', '<rss version="0.91"%s><channel>', '<rss%s>', '<feed xmlns="http://www.w3.org/2005/Atom"%s>', '<feed version="0.3" xmlns="http://purl.org/atom/ns#"%s>',
@@ -331,7 +331,7 @@ class ShortReader:
 
 
 def deliver(rng, data, form):
-    if form == "str" and (data[:7].lower() in (b"http://", b"https:/") or len(data) < 8):
+    if form in ("str", "str-surrogate") and (data[:7].lower() in (b"http://", b"https:/") or len(data) < 8):
         form = "stream"             # parse(str) would fetch a URL / open a file of that name: C17's and the filesystem's business, not this check's
     if isinstance(data, str):
         return io.StringIO(data) if form in ("stream", "short") else data
@@ -343,6 +343,16 @@ def deliver(rng, data, form):
         return ShortReader(data, rng)
     if form == "str":
         return data.decode("utf-8", "surrogateescape") if False else data.decode("latin-1")
+    if form == "str-surrogate":
+        # a str (or text stream) may hold LONE SURROGATES (text decoded with surrogateescape / surrogatepass, JSON with unpaired \\uD800): no codec can encode them
+        # (position, surrogate, padding and stream-or-str are functions of the data, so that a witness replays exactly)
+        t = data.decode("utf-8", "surrogateescape")
+        h = sum(data) + len(data)
+        k = h % (len(t) + 1)
+        t = t[:k] + ["\ud800", "\udfff", "\udc80x"][h % 3] + t[k:]
+        if h % 10 < 3:
+            t = t.replace(">", ">" + "pad " * 3000, 1)            # …beyond the 8192-character prefix too
+        return io.StringIO(t) if h % 5 < 2 else t
     return data
 
 
@@ -396,8 +406,8 @@ def clobbering_element(data, headers, loose, opts, form):
     """names of the handler-less elements in `data` whose renaming (K -> K + 'x', start and end tags alike) makes the exception go away, else None"""
     import re
     import feedparser.mixin as mixin
-    if not isinstance(data, bytes):
-        return None
+    if not isinstance(data, bytes) or form == "str-surrogate":
+        return None          # (the surrogate form derives its insertion point from the bytes: a renamed copy is another experiment)
     present, renamed = [], data
     for k in INTERNAL_KEYS:
         if hasattr(mixin.XMLParserMixin, "_start_" + k) or hasattr(mixin.XMLParserMixin, "_end_" + k):
@@ -451,7 +461,7 @@ def judge(data, headers, loose, opts, form, stream, rng=None):
 
 
 OPTS = [{}] + [{"resolve_relative_uris": a, "sanitize_html": b, "optimistic_encoding_detection": c} for a in (True, False) for b in (True, False) for c in (True, False)]
-FORMS = ["bytes", "bytes", "stream", "short", "str"]
+FORMS = ["bytes", "bytes", "stream", "short", "str", "str-surrogate"]
 
 
 
